@@ -524,6 +524,69 @@ def r_tile(ctx):
               inputs='every strand with a detected error')
     # occur
     r_occur(ctx, f, A, chunk_lo, Ea)
+    # T6: the record of visited vertices is addressed by the cursor.  Stored at IQ[E] on the walk arm; or, when it is a list
+    # that grows, every round of the scan grows it by exactly the amount the cursor advances
+    rec = None
+    for e in events:
+        if e.kind == 'append' and e.term:
+            sl = slice_of(e.term[0], lambda b: b[0] == 'v' and b != strand)
+            if sl and e.term[0][1][0] == 'v':
+                rec = e.term[0][1][1]
+    if rec is not None:
+        grows = stores = 0
+        bad = None
+        undec = None
+        for pth, k in ctx.body_paths(f, scan):
+            if k != 'back':
+                continue
+            evs, _env = walk_path(f, pth)
+            delta = None
+            growth = {1: 0}
+            for e in evs:
+                if e.kind == 'aug' and e.name == cursor:
+                    delta = affine(e.extra) if delta is None else None
+                if e.kind == 'store' and e.name == rec and e.extra[0] == 'sub':
+                    stores += 1
+                    ia = affine(e.extra[2])
+                    if ia is None or not aff_eq(ia, Ea):
+                        if ia is not None and set(ia) <= {E, 1, K_SYM}:
+                            bad = 'the visited vertex is recorded at %s, not at the cursor %s' % (show(e.extra[2])[:40], cursor)
+                        else:
+                            undec = 'record index %s' % show(e.extra[2])[:40]
+                if e.kind in ('append', 'extend') and e.name == rec:
+                    grows += 1
+                    if e.kind == 'append':
+                        growth = {k_: v + (1 if k_ == 1 else 0) for k_, v in growth.items()}
+                    else:
+                        a0 = e.term[0] if e.term else None
+                        n_ = None
+                        if a0 is not None and a0[0] == 'bin' and a0[1] == '*':
+                            for p_, q_ in ((a0[2], a0[3]), (a0[3], a0[2])):
+                                if p_[0] == 'list' and len(p_) == 2:
+                                    n_ = affine(q_)
+                        elif a0 is not None and a0[0] == 'list':
+                            n_ = {1: len(a0) - 1}
+                        if n_ is None:
+                            undec = 'extend(%s)' % (show(a0)[:40] if a0 else '?')
+                        else:
+                            for k_, v in n_.items():
+                                growth[k_] = growth.get(k_, 0) + v
+            if grows and delta is not None and undec is None:
+                g_ = {k_: v for k_, v in growth.items() if v != 0}
+                d_ = {k_: v for k_, v in delta.items() if v != 0}
+                if g_ != d_:
+                    bad = 'on a round that advances the cursor by %s the record of visited vertices grows by %s elements' % (
+                        aff_show(delta), aff_show(growth))
+        if grows or stores:
+            if bad:
+                run.refute('R-TILE', f, 'T6:record-addressed-by-cursor', line,
+                           '%s: record position and strand position drift apart, so the look-back slice [E - k, E) after a later error '
+                           'no longer holds the k vertices before the cursor' % bad,
+                           inputs='strands with two or more detected errors')
+            elif undec:
+                run.undecided('R-TILE', f, 'T6:record-addressed-by-cursor', line, 'growth of the record not evaluable: %s' % undec)
+            else:
+                run.ok('R-TILE', f, 'T6:record-addressed-by-cursor', line, 'record position = strand position on every round')
 
 
 def r_occur(ctx, f, A, chunk_lo, Ea):
@@ -1009,6 +1072,20 @@ def r_sites(ctx):
                       "candidate product" % (shared[0] if shared else ''),
                       inputs='two detected errors whose correct fragments coincide (repetitive strands, small graphs)')
     run.floor('R-SITE', 'fragment stores in repair_dna', n, 1)
+    # every recalled vertex of a site is tried: the look-back loop is not left early
+    for nd, c, callee, q in ctx.calls()[f.fq]:
+        if callee is None or callee.name != 'path_matching' or not nd.loops:
+            continue
+        lp = nd.loops[-1]
+        for pth, k in ctx.body_paths(f, lp):
+            if k in ('break', 'return') and nd.id in pth:
+                last = f.nodes[pth[-1]]
+                run.refute('R-SITE', f, 'every-look-back-position-tried', last.lineno,
+                           'the look-back loop over the recalled vertices of an error site is left early (%s at line %d) after a '
+                           'position produced candidates: an error noticed late is only repairable at an older position, which is '
+                           'never tried, so the original strand is missing from the candidates' % (k, last.lineno),
+                           inputs='substitutions detected one or more steps after they occur (has_indel off included)')
+                break
 
 
 def r_arity(ctx, entry):
